@@ -401,9 +401,17 @@ func (x *Explorer) ConfirmExact(target *E1State, opts ConfirmOpts) *Confirmation
 		if xs.nodes > opts.MaxNodes {
 			break
 		}
-		if n.store == target.content && n.env.Held == "" && (!opts.NeedIdle || qlen(n.queues) == 0) {
+		heldWanted := ""
+		if opts.ThenStep != nil && opts.ThenStep.Kind == "release" {
+			heldWanted = target.env.Held // the violating transition is the second half of a split step
+		}
+		if n.store == target.content && n.env.Held == heldWanted && (!opts.NeedIdle || qlen(n.queues) == 0) {
 			if opts.ThenStep == nil {
 				goal = n
+				break
+			}
+			if opts.ThenStep.Kind == "release" {
+				goal = &pnode{store: n.store, queues: n.queues, env: n.env, parent: n, via: *opts.ThenStep, depth: n.depth + 1}
 				break
 			}
 			// the token of the violating transition must be reachable behind tokens that do nothing here
